@@ -96,6 +96,21 @@ func ValidateAggregateAndProof(ctx context.Context, signedAgg *phase0.SignedAggr
 		return nil, GossipValidatorResult{REJECT, errors.New("cannot vote for finalized root with an older target")}
 	}
 
+	// [REJECT] The aggregate attestation's target block is an ancestor of the block named in the LMD vote --
+	// i.e. get_ancestor(store, aggregate.data.beacon_block_root, compute_start_slot_at_epoch(aggregate.data.target.epoch))
+	//        == aggregate.data.target.root
+	blockRef, ok := ch.ByBlock(att.Data.BeaconBlockRoot)
+	if !ok {
+		return nil, GossipValidatorResult{IGNORE, errors.New("aggregate voted for unknown block")}
+	}
+	if targetSlot, err := spec.EpochStartSlot(att.Data.Target.Epoch); err != nil {
+		return nil, GossipValidatorResult{REJECT, err}
+	} else if ancestor, ok := GetAncestor(ch, blockRef, targetSlot); !ok {
+		return nil, GossipValidatorResult{IGNORE, errors.New("unknown ancestor of voted block, cannot check target")}
+	} else if ancestor != att.Data.Target.Root {
+		return nil, GossipValidatorResult{REJECT, fmt.Errorf("target %s is not the block %s of the voted chain at the target epoch start", att.Data.Target.Root, ancestor)}
+	}
+
 	// 3 combined steps:
 	// [REJECT] aggregate_and_proof.selection_proof selects the validator as an aggregator for the slot --
 	// i.e. is_aggregator(state, aggregate.data.slot, aggregate.data.index, aggregate_and_proof.selection_proof) returns True.
